@@ -99,6 +99,41 @@ def build(repo):
     bad = [n for n in first if n not in ANY_LIST]
     lines.append(f"//@ OBL C03.sig.list.fixed-shape\n// offered on every list shape: {first}; not element-preserving: {bad}\npub proof fn sig_list_any() ensures {len(bad)}int == 0int {{}}")
     obls.append(Obl("C03.sig.list.fixed-shape", ["C03", "C02"], fn="TypeLayout::get_property_type[list methods]", desc="the methods a fixed-shape list offers neither move, remove nor add elements (its type records one type per position); everything else needs `[T...]`"))
+    # ---- (4) lists: the PARAMETER lists of the list methods -- what the run-time arms take for granted of their argument vector (the preconditions of unit
+    # c13_lists: `remove` / `ensure_inner_capacity` get an int, `push` / `index_of` one value of the element type, the others nothing)
+    def param_shape(btoks):
+        t = text(btoks).replace(" ", "")
+        m = re.search(r"new_assoc_function!\(vec!\[(.*?)\],", t)
+        if not m:
+            return None
+        a = m.group(1)
+        if a == "":
+            return "none"
+        if a in ("Cow::Owned(TypeLayout::int())", "Cow::Owned(TypeLayout::Native(NativeType::Int))"):
+            return "int"
+        if a == "list_type":
+            return "element"
+        return "other:" + a[:40]
+    shapes = {}
+    for pat, b in split_arms(larm[mo + 1:mc]):
+        for n in [t.strip('"') for t in pat if t.startswith('"')]:
+            shapes[n] = param_shape(b)
+    try:
+        _, m2o, m2c = find_block_after(larm, "match property_name", start=mc)
+    except Exception as e:
+        raise Undecided(f"get_property_type[list]: the second `match property_name` group (methods of `[T...]`) not found: {e}")
+    for pat, b in split_arms(larm[m2o + 1:m2c]):
+        for n in [t.strip('"') for t in pat if t.startswith('"')]:
+            shapes[n] = param_shape(b)
+    WANT = {"len": "none", "inner_capacity": "none", "ensure_inner_capacity": "int", "clone": "none", "remove": "int", "reverse": "none", "push": "element", "index_of": "element", "clear": "none"}
+    pcode = {"none": 1, "int": 2, "element": 3}
+    for n, want in WANT.items():
+        g = shapes.get(n)
+        if g is None:
+            raise Undecided(f"get_property_type[list]: the parameter list of `{n}` has a shape the table extraction does not read")
+        oid = f"C02.sig.list.params.{n}"
+        lines.append(f"//@ OBL {oid}\n// list method `{n}`: declared parameters: {g}; the run-time arm takes: {want}\npub proof fn sig_list_params_{n}() ensures {pcode.get(g, 0)}int == {pcode[want]}int {{}}")
+        obls.append(Obl(oid, ["C02", "C13"], fn="TypeLayout::get_property_type[list methods]", desc=f"list method `{n}` is declared with the parameters its run-time arm takes for granted ({want}): the argument-vector preconditions of unit c13_lists are what the type checker enforces"))
     gen = header(log, f"{FILE}: TypeLayout::get_property_type, tables of built-in method signatures") + "use vstd::prelude::*;\nverus! {\n" + "\n".join(lines) + "\n} // verus!\nfn main() {}\n"
     return gen, obls, log
 
